@@ -102,6 +102,10 @@ func (a *Array) MarshalJSONBuffer(dst []byte) ([]byte, error) {
 			return nil, err
 		}
 		if t == TypeNone {
+			// No (more) elements: AdvanceIter has read past the closing tag.
+			if i.t != TagArrayEnd {
+				return nil, errors.New("expected TagArrayEnd as final tag in array")
+			}
 			break
 		}
 		dst, err = elem.MarshalJSONBuffer(dst)
@@ -112,9 +116,6 @@ func (a *Array) MarshalJSONBuffer(dst []byte) ([]byte, error) {
 			break
 		}
 		dst = append(dst, ',')
-	}
-	if i.PeekNextTag() != TagArrayEnd {
-		return nil, errors.New("expected TagArrayEnd as final tag in array")
 	}
 	dst = append(dst, ']')
 	return dst, nil
